@@ -19,6 +19,6 @@ PROP = {
 META = {
     "design_ref": "DESIGN.md section 4, C05",
     "technique": "PBT over generated loop-thread scripts against real worker threads (rapidcheck) with schedule-point perturbation; history oracle with a global sequence counter (exactly-once, thread affinity, callback-after-body, answer consistency, pick order, worker bound); ThreadSanitizer + ASan builds; cleanup watchdog",
-    "level_text": "Generated (min,max) configurations and loop-thread scripts of execute (priorities -3..3, instant/spinning/gated bodies, with and without completion callback), status, cancel, snapshot, gate opening, waits, loop pumping, quiesce, cleanup and re-initialise, for ThreadPool and WorkThread, with randomised delays at the H4 schedule points (after pop, wait predicate false, before the stop flag, worker exit decided). Every answer is checked against the event log when it is given, the whole history after the pool and the loop are destroyed. Exploration: interleavings are sampled, not enumerated.",
+    "level_text": "Generated (min,max) configurations and loop-thread scripts of execute (priorities -3..3, instant/spinning/gated bodies, with and without completion callback), status, cancel, snapshot, gate opening, waits, loop pumping, quiesce, cleanup and re-initialise, for ThreadPool and WorkThread, with randomised delays at the H4 schedule points (after pop, wait predicate false, before the stop flag, worker exit decided). Every answer is checked against the event log when it is given, the whole history after the pool and the loop are destroyed. Exploration: interleavings are sampled, not enumerated. Later additions (seeding rounds): task bodies that end by throwing, an explicit second loop for WorkThread callbacks, initialize(0,0) and initialize() on an initialised pool (both must change nothing), priorities over the whole -3..3 range, and a snapshot probe at the schedule point inside cleanup() between 'waiting tasks dropped' and 'stop flag set'.",
     "level_note": "Trusted: TSan/ASan, the atomics-based event log and its global sequence counter. Limits L2/L3 of DESIGN.md section 1 apply.",
 }
